@@ -148,8 +148,9 @@ def _resolve_relative(modname, is_pkg, level, target):
 
 
 class Model:
-    def __init__(self, repo=None):
+    def __init__(self, repo=None, overrides=None):
         self.repo = repo or REPO
+        self.overrides = overrides or {}     # relpath -> source text (in-memory variants for self-tests)
         self.modules = {}
         self.stats = {}
         self._load()
@@ -169,7 +170,9 @@ class Model:
         nlines = 0
         for path in files:
             rel = os.path.relpath(path, self.repo)
-            text = open(path, encoding='utf-8').read()
+            text = self.overrides.get(rel)
+            if text is None:
+                text = open(path, encoding='utf-8').read()
             nlines += text.count('\n')
             try:
                 tree = ast.parse(text, filename=rel)
